@@ -124,6 +124,7 @@ REFACTORS = [
     ('r_e_sort_reverse_iter', ['C16', 'C20'], [(E, 'std::sort(protected_epochs.begin(), protected_epochs.end(), std::greater<size_t>{});', 'std::sort(protected_epochs.rbegin(), protected_epochs.rend());', 1)], 'descending sort through reverse iterators'),
     ('r_z_auto_dist', ['C19'], [(ZH, 'thread_local std::uniform_real_distribution<double> uniform_dist{0.0, 1.0};  // NOLINT', 'std::uniform_real_distribution<double> uniform_dist{0.0, 1.0};', 1)], 'automatic distribution object'),
     ('r_p_upgrade_keeps_six', ['C01', 'C10', 'C02'], [(P, 'lock->compare_exchange_weak(cur, kXLock, kAcquire, kRelaxed)', 'lock->compare_exchange_weak(cur, cur | kXLock, kAcquire, kRelaxed)', 1)], 'non-canonical encoding: an upgraded X holder keeps the SIX bit set (every admission test and both X exits still behave the same)'),
+    ('r_p_stats_counter', ['C01', 'C07', 'C08'], [(PH, '  std::atomic_uint64_t lock_{0};\n};', '  std::atomic_uint64_t lock_{0};\n\n  /// @brief The number of exclusive acquisitions (statistics only).\n  std::atomic_uint64_t x_count_{0};\n};', 1), (P, '      &lock_);\n  return XGuard{this};', '      &lock_);\n  x_count_.fetch_add(1, kRelaxed);\n  return XGuard{this};', 1)], 'a statistics counter next to the lock word'),
 ]
 
 
